@@ -12,15 +12,15 @@ PID = 'C09'
 
 # (name, regexp, replacement) : context-restricted so that the substitute is grammatical where the original was
 SUBS = [
-    ('equal to -> the same as', r'(?<= is )equal to(?= )', 'the same as'),
-    ('the same as -> equal to', r'(?<= is )the same as(?= )', 'equal to'),
-    ('more than -> greater than', r'(?<= is )more than(?= )', 'greater than'),
-    ('greater than -> more than', r'(?<= is )greater than(?= (?!or ))', 'more than'),
-    ('at least -> greater than or equal to', r'(?<= is )at least(?= )', 'greater than or equal to'),
-    ('greater than or equal to -> at least', r'(?<= is )greater than or equal to(?= )', 'at least'),
-    ('at most -> less than or equal to', r'(?<= is )at most(?= )', 'less than or equal to'),
-    ('less than or equal to -> not after', r'(?<= is )less than or equal to(?= )', 'not after'),
-    ('not after -> at most', r'(?<= is )not after(?= )', 'at most'),
+    ('equal to -> the same as', r'(?<=[A-Z0-9] is )equal to(?= )', 'the same as'),
+    ('the same as -> equal to', r'(?<=[A-Z0-9] is )the same as(?= )', 'equal to'),
+    ('more than -> greater than', r'(?<=[A-Z0-9] is )more than(?= )', 'greater than'),
+    ('greater than -> more than', r'(?<=[A-Z0-9] is )greater than(?= (?!or ))', 'more than'),
+    ('at least -> greater than or equal to', r'(?<=[A-Z0-9] is )at least(?= )', 'greater than or equal to'),
+    ('greater than or equal to -> at least', r'(?<=[A-Z0-9] is )greater than or equal to(?= )', 'at least'),
+    ('at most -> less than or equal to', r'(?<=[A-Z0-9] is )at most(?= )', 'less than or equal to'),
+    ('less than or equal to -> not after', r'(?<=[A-Z0-9] is )less than or equal to(?= )', 'not after'),
+    ('not after -> at most', r'(?<=[A-Z0-9] is )not after(?= )', 'at most'),
     ('highest -> biggest', r'\bthe highest\b', 'the biggest'), ('biggest -> highest', r'\bthe biggest\b', 'the highest'),
     ('lowest -> smallest', r'\bthe lowest\b', 'the smallest'), ('smallest -> lowest', r'\bthe smallest\b', 'the lowest'),
     ('every -> any', r'\bEvery\b', 'Any'), ('any -> every', r'\bAny\b', 'Every'), ('Every -> every', r'^Every\b', 'every'),
@@ -39,7 +39,22 @@ SUBS = [
     ('trailing comment', r'\.$', '. // paraphrase comment'),
     ('block comment before sentence', r'^', '/* c */ '),
     ('double blank between sentence-initial words', r'^(It is|There is|Whenever there is|Every|Any)\b ', lambda m: m.group(0) + ' '),
+    # comparison synonyms after a parameter name ("with age at least 70")
+    ('parameter: greater than or equal to -> at least', r'(with [a-z]+ )greater than or equal to(?= )', r'\1at least'),
+    ('parameter: at least -> greater than or equal to', r'(with [a-z]+ )at least(?= )', r'\1greater than or equal to'),
+    ('parameter: less than or equal to -> at most', r'(with [a-z]+ )less than or equal to(?= )', r'\1at most'),
+    ('parameter: at most -> not after', r'(with [a-z]+ )at most(?= \d)', r'\1not after'),
+    ('parameter: more than -> greater than', r'(with [a-z]+ )more than(?= )', r'\1greater than'),
+    ('parameter: greater than -> more than', r'(with [a-z]+ )greater than(?= (?!or ))', r'\1more than'),
+    ('parameter: equal to -> the same as', r'(with [a-z]+ )equal to(?= [a-z0-9]+[ ,.])', r'\1the same as'),
+    # articles after the verb to have
+    ('drop article after has', r'(?<=\bhas )an? (?=[a-z]+ (to|in|of|for|with) )', ''), ('drop article after have', r'(?<=\bhave )an? (?=[a-z]+ (to|in|of|for|with) )', ''),
+    ('a -> an after has', r'(?<=\bhas )a (?=[a-z]+ (to|in|of|for|with) )', 'an '), ('an -> a after have', r'(?<=\bhave )an (?=[a-z]+ (to|in|of|for|with) )', 'a '),
 ]
+# kinds whose substitute is grammatical wherever the pattern matches: a REJECTED paraphrase of these kinds is a violation, too
+SAFE = ('equal to ->', 'the same as ->', 'more than ->', 'greater than ->', 'at least ->', 'greater than or equal to ->', 'at most ->', 'less than or equal to ->',
+        'not after ->', 'highest ->', 'biggest ->', 'lowest ->', 'smallest ->', 'every ->', 'any ->', 'goes from ->', 'ranges from ->', 'parameter:',
+        'drop article after ha', 'a -> an after has', 'an -> a after have', 'plural of', 'block comment', 'trailing comment', 'double blank')
 
 
 def concept_case_and_number(rnd, sentences):
@@ -57,6 +72,7 @@ def concept_case_and_number(rnd, sentences):
         pl = eng.plural(c)
         if pl and pl != c:
             out.append(('plural of %s after number of' % c, r'(?<=the number of )%s\b' % c, pl))
+            out.append(('plural of %s after a cardinality' % c, r'((?:exactly|at most|at least|and) \d+ )%s\b' % c, r'\1' + pl))
     return out
 
 
@@ -95,7 +111,7 @@ def run(tier, seed):
         bi = len(bases)
         bases.append((name, text))
         k = 25 if tier == 'thorough' else 6
-        chosen = rnd.sample(cands, min(k, len(cands)))
+        chosen = cands if name.startswith('regressions/c09_') else rnd.sample(cands, min(k, len(cands)))
         for (i, nm, pat, repl) in chosen:
             nl = apply_one(lines, i, pat, repl)
             if nl:
@@ -121,9 +137,13 @@ def run(tier, seed):
         rep.case((bi, nm, text))
         key = nm.split(' + ')[0] if ' + ' in nm else nm
         if r[0] != 'ok':
-            inapplicable += 1      # the substitute is not grammatical at that place (or the paraphrase is rejected): counted, not scored
             applied.setdefault(key + ' [rejected]', 0)
             applied[key + ' [rejected]'] += 1
+            if ' + ' not in nm and nm.startswith(SAFE):
+                rep.violation('the paraphrase "%s" is rejected although the original compiles' % nm,
+                              dict(text=bases[bi][1], paraphrase=text, substitution=nm, program=b[1], paraphrase_result=[str(x) for x in r[:3]]))
+            else:
+                inapplicable += 1      # the substitute may be ungrammatical at that place: counted, not scored
             continue
         applied[key] = applied.get(key, 0) + 1
         if r[1] != b[1]:
